@@ -108,3 +108,25 @@ claim("C15", E2,
       "path-forking symbolic execution of the real function (no loops => no unrolling bound) + bounded histories",
       "DESIGN.md §3 C15")
 NOT_APPLICABLE.pop("C15", None)
+
+claim("C04", E2,
+      "Symbolic execution of the real SubtrajectoryReplayBuffer and SubtrajectoryReplayBufferPER from the empty state: every "
+      "history of <=K adds whose terminated/truncated flags are symbolic (capacities 3-6, storage horizons 1-3, sampling horizons "
+      "<= storage horizon, K up to N+2), then one sampled window for EVERY admissible start (generator draw symbolic); the window "
+      "prefix up to its first terminated step must be same-episode, consecutive in time and in write sequence, free of truncated "
+      "steps and of never-written slots; the reduced view must agree with the full view of the same start.",
+      E2NOTE + " Observations are concrete ghost tags, rewards symbolic; capacities above 6 / horizons above 3 are outside the bound (no inductive step).",
+      "path-forking symbolic execution (bounded model checking over flag patterns and start indices) of the real classes under the allocation shim",
+      "DESIGN.md §3 C04")
+NOT_APPLICABLE.pop("C04", None)
+claim("C08", E2 + " + " + E1,
+      "Symbolic execution of PriorityBuffer.prioritized_sampling, the stratified PER sampler, LAP / PER bookkeeping, "
+      "compute_importance_ratio and the multi-task routing with symbolic positive priorities (n<=4), symbolic 0/1 masks, symbolic "
+      "filled length and uniform variates in the open interval (0,1): the returned index is exactly the cumulative interval "
+      "containing u*total (hence in range, unmasked, positive priority), new entries get the tracked maximum, update_priority "
+      "rewrites exactly the last batch, max >= all / = true max after reset, weights in (0,1] with max 1 and antitone in priority; "
+      "lap_priority/per_priority positive and monotone (jaxpr->SMT).",
+      E2NOTE + " x**y is an axiomatised uninterpreted function; empirical frequencies under a real generator are not examined.",
+      "path-forking symbolic execution + SMT validity of the cumulative-interval law; jaxpr -> SMT for the priority formulas",
+      "DESIGN.md §3 C08")
+NOT_APPLICABLE.pop("C08", None)
